@@ -333,7 +333,11 @@ func drawE2E(t *rapid.T) E2ECase {
 		c.StoredEarlier = true
 		// make the forbidding directives frequent here: they are what the earlier period overrode
 		if rapid.Bool().Draw(t, "earlier-forbidding") {
-			c.Fresh = rapid.SampledFrom([]gen.Fresh{{CC: []string{"no-store"}}, {CC: []string{"private, max-age=600"}}, {CC: []string{"no-cache"}}, {CC: []string{"max-age=0"}}, {CC: []string{"No-Store, max-age=60"}}}).Draw(t, "earlier-fresh")
+			c.Fresh = rapid.SampledFrom([]gen.Fresh{{CC: []string{"no-store"}}, {CC: []string{"private, max-age=600"}}, {CC: []string{"no-cache"}}, {CC: []string{"max-age=0"}}, {CC: []string{"No-Store, max-age=60"}},
+				{Expires: []string{"0"}}, {Expires: []string{time.Now().Add(-time.Hour).UTC().Format(http.TimeFormat)}}, {Expires: []string{"Thu, 01 Jan 1970 00:00:00 GMT"}}}).Draw(t, "earlier-fresh")
+			if len(c.Fresh.CC) == 0 {
+				c.Force = true // an Expires-only answer stays in the store of the ignoring period only under a forced lifetime
+			}
 		}
 	}
 	return c
